@@ -14,6 +14,8 @@ Section SnodeInd.
   Hypothesis Harr : forall items mn mx nu, Forall P items -> P (SArr items mn mx nu).
   Hypothesis Hobj : forall ms ap nu, Forall (fun m => P (snd (snd m))) ms -> P (SObj ms ap nu).
   Hypothesis Href : forall name nu, P (SRef name nu).
+  Hypothesis Hchoice : forall names nu, P (SChoice names nu).
+  Hypothesis Hreflit : forall ex name nu, P (SRefLit ex name nu).
   Fixpoint snode_ind' (n : snode) : P n :=
     match n with
     | SLeaf ex l => Hleaf ex l
@@ -28,6 +30,8 @@ Section SnodeInd.
                         | x :: r => Forall_cons x (snode_ind' (snd (snd x))) (go r)
                         end) ms)
     | SRef name nu => Href name nu
+    | SChoice names nu => Hchoice names nu
+    | SRefLit ex name nu => Hreflit ex name nu
     end.
 End SnodeInd.
 
@@ -43,12 +47,16 @@ Definition alt_wf (l : leaf) : Prop := match l with Leaf KNull rules => existsb 
    ones in Proofs/OasRefProofs.v) *)
 Section Accepted.
 Variable refok : bytes -> Prop.
+(* refacc r v: the type named r accepts the value v (nothing without registered types) *)
+Variable refacc : bytes -> jval -> Prop.
 Fixpoint accepted_g (n : snode) : Prop :=
   match n with
   | SLeaf ex l => validate l (Some ex) ex = true /\ lit_ok ex /\ leaf_rules_ok l
   | SOr ex alts nu =>
     lit_ok ex /\ (forall l, In (OALeaf l) alts -> leaf_rules_ok l /\ alt_wf l) /\
-    ((nu = true /\ ex = w_null_lit) \/ exists l, In (OALeaf l) alts /\ validate l (Some ex) ex = true)
+    (forall r rn, In (OARef r rn) alts -> refok r) /\
+    ((nu = true /\ ex = w_null_lit) \/ (exists l, In (OALeaf l) alts /\ validate l (Some ex) ex = true) \/
+     (exists r rn, In (OARef r rn) alts /\ refacc r (JLit ex)))
   | SArr items mn mx _ =>
     (forall m, mn = Some m -> m <= Z.of_nat (length items)) /\ (forall m, mx = Some m -> Z.of_nat (length items) <= m) /\
     (fix all (l : list snode) : Prop := match l with [] => True | x :: r => accepted_g x /\ all r end) items
@@ -56,6 +64,8 @@ Fixpoint accepted_g (n : snode) : Prop :=
     (NoDup (map fst ms) /\ match ap with APRef r => refok r | _ => True end) /\
     (fix all (l : list (bytes * (bool * snode))) : Prop := match l with [] => True | x :: r => accepted_g (snd (snd x)) /\ all r end) ms
   | SRef r _ => refok r
+  | SChoice names _ => names <> [] /\ forall r, In r names -> refok r
+  | SRefLit ex r nu => refok r /\ lit_ok ex /\ ((nu = true /\ ex = w_null_lit) \/ refacc r (JLit ex))
   end.
 Lemma accepted_items items : (fix all (l : list snode) : Prop := match l with [] => True | x :: r => accepted_g x /\ all r end) items ->
   forall x, In x items -> accepted_g x.
@@ -66,7 +76,7 @@ Lemma accepted_members ms :
 Proof. induction ms as [|y r IH]; intros H x Hx; [inversion Hx|]. destruct H as [H1 H2]. destruct Hx as [->|Hx]; auto. Qed.
 End Accepted.
 (* without registered types no reference is acceptable *)
-Definition accepted := accepted_g (fun _ => False).
+Definition accepted := accepted_g (fun _ => False) (fun _ _ => False).
 
 (* the values the schema's own rules accept (the documented meaning of a JSight schema without references):
    a literal node accepts what its rules accept; an array any sequence, within the item counts, of values accepted by
@@ -104,7 +114,8 @@ Qed.
 (* the translation is sound for every value the schema accepts *)
 Theorem tree_sound : forall n, accepted n -> forall v, inst n v -> tvalid (to_otree n) v.
 Proof.
-  induction n as [ex l|ex alts nu|items mn mx nu IH|ms ap nu IH|name nu] using snode_ind'; intros Hacc v Hi; [| | | |destruct Hacc].
+  induction n as [ex l|ex alts nu|items mn mx nu IH|ms ap nu IH|name nu|names nu|ex name nu] using snode_ind'; intros Hacc v Hi;
+    [| | | |destruct Hacc|destruct Hacc as [Hne Hall]; destruct names as [|r0 rs]; [congruence|destruct (Hall r0 (or_introl eq_refl))]|destruct Hacc as [[] _]].
   - inversion Hi as [? ? v0 Hv [Hs Hn]| | | | | |]; subst. cbn [to_otree]. constructor.
     destruct Hacc as (Hex & [Hes Hen] & Hr). destruct l as [k rules|].
     + exact (oasx_sound ex k rules v0 Hs Hr Hn Hen Hex Hv).
@@ -126,7 +137,7 @@ Proof.
     + intros m Hm. apply int64_opt_some in Hm. exact (Hmn m Hm).
     + intros m Hm. destruct items as [|i0 ir]; [inversion Hm; subst; rewrite (Hempty eq_refl); cbn; lia|]. apply int64_opt_some in Hm. exact (Hmx m Hm).
     + intros x Hx. right. destruct (Hall x Hx) as (it & Hit & Hinst). exists (to_otree it). split; [apply in_map; exact Hit|].
-      rewrite Forall_forall in IH. exact (IH it Hit (accepted_items _ items Hitems it Hit) x Hinst).
+      rewrite Forall_forall in IH. exact (IH it Hit (accepted_items _ _ items Hitems it Hit) x Hinst).
   - cbn [to_otree]. inversion Hi as [| | | |? ?| |? ? ? vs Hreq Hall]; subst; [constructor|].
     destruct Hacc as ((Hnd & _) & Hms).
     apply tv_obj.
@@ -141,7 +152,7 @@ Proof.
            { clear -Hl. induction ms as [|[k' y] r IHm]; [discriminate|]. cbn [plookup] in Hl. destruct (list_eqb k' k) eqn:E.
              - apply list_eqb_eq in E. subst k'. inversion Hl; subst. left; reflexivity.
              - right. exact (IHm Hl). }
-           exact (IH (k, (o, n)) Hin (accepted_members _ ms Hms _ Hin) x Hinst).
+           exact (IH (k, (o, n)) Hin (accepted_members _ _ ms Hms _ Hin) x Hinst).
       * right. split; [|exact Hap].
         change (fun m : bytes * (bool * snode) => (fst m, to_otree (snd (snd m)))) with (fun m : bytes * (bool * snode) => (fst m, (fun y => to_otree (snd y)) (snd m))).
         rewrite (plookup_map (fun y : bool * snode => to_otree (snd y))). rewrite Hl. reflexivity.
@@ -150,20 +161,21 @@ Qed.
 (* the schema's own example is one of the values it accepts ... *)
 Theorem example_inst : forall n, accepted n -> inst n (example n).
 Proof.
-  induction n as [ex l|ex alts nu|items mn mx nu IH|ms ap nu IH|name nu] using snode_ind'; intros Hacc; cbn [example]; [| | | |destruct Hacc].
+  induction n as [ex l|ex alts nu|items mn mx nu IH|ms ap nu IH|name nu|names nu|ex name nu] using snode_ind'; intros Hacc; cbn [example];
+    [| | | |destruct Hacc|destruct Hacc as [Hne Hall]; destruct names as [|r0 rs]; [congruence|destruct (Hall r0 (or_introl eq_refl))]|destruct Hacc as [[] _]].
   - destruct Hacc as (Hex & Hlit & _). constructor; assumption.
-  - destruct Hacc as (Hlit & _ & [[-> ->]|(l & Hin & Hv)]); [apply in_or_null|exact (in_or ex alts nu l ex Hin Hv Hlit)].
+  - destruct Hacc as (Hlit & _ & _ & [[-> ->]|[(l & Hin & Hv)|(r & rn & _ & [])]]); [apply in_or_null|exact (in_or ex alts nu l ex Hin Hv Hlit)].
   - destruct Hacc as (Hmn & Hmx & Hitems). apply in_arr.
     + intros m Hm. rewrite map_length. exact (Hmn m Hm).
     + intros m Hm. rewrite map_length. exact (Hmx m Hm).
     + intros ->. reflexivity.
     + intros v Hv. apply in_map_iff in Hv. destruct Hv as (it & <- & Hit). exists it. split; [exact Hit|].
-      rewrite Forall_forall in IH. exact (IH it Hit (accepted_items _ items Hitems it Hit)).
+      rewrite Forall_forall in IH. exact (IH it Hit (accepted_items _ _ items Hitems it Hit)).
   - destruct Hacc as ((Hnd & _) & Hms). apply in_obj.
     + intros k o n Hin _. exists (example n). apply in_map_iff. exists (k, (o, n)). split; [reflexivity|exact Hin].
     + intros k v Hv. apply in_map_iff in Hv. destruct Hv as ([k' [o n]] & E & Hin). cbn [fst snd] in E. inversion E; subst k' v.
       left. exists o, n. split; [exact (plookup_nodup k (o, n) ms Hnd Hin)|].
-      rewrite Forall_forall in IH. exact (IH (k, (o, n)) Hin (accepted_members _ ms Hms _ Hin)).
+      rewrite Forall_forall in IH. exact (IH (k, (o, n)) Hin (accepted_members _ _ ms Hms _ Hin)).
 Qed.
 (* ... hence valid against the generated Schema Object: C08 for schemas without references *)
 Theorem example_valid n : accepted n -> tvalid (to_otree n) (example n).
